@@ -97,7 +97,17 @@ def clauses (prop : String) (cfg : NetCfg) (seen : List Nat := []) : St → List
             if u.kind == .hcu then Hcu.encodeMotion u.da u.sa (us.hcu.getD .stopAll) else []
           [("cycle_reasserts_latest_command", (o.frames.drop setupLen).filter isHcuMotion == expect)]
         else if prop == "C20" then
-          [("setup_requests_on_first_cycle",
+          -- every published status carries the canonical name of a CONFIGURED unit (vendor:product:0xSA:0xDA from the
+          -- configuration entry, not from whatever driver the factory happened to build)
+          let expectedSt := (((units cfg).zip s.units).zipIdx.filterMap fun ((u, us), i) =>
+            (Spec.C10.mustPublish { heard := us.heard, silentFor := s.now - us.lastRx + 1, timeout := u.timeout,
+                                     previous := us.lastStatus, cycle := s.tick }).map fun k =>
+              showStatus cfg { unit := i, kind := k })
+          [("status_names_are_configured_units", o.statuses.all fun st =>
+              (units cfg).any fun u => st.startsWith (unitName u ++ "|")),
+           -- each configured unit behaves as the driver of ITS (vendor, product): what it reports once it has spoken
+           ("every_configured_unit_reports_as_its_product", expectedSt == o.statuses),
+           ("setup_requests_on_first_cycle",
             s.isSetup || ((units cfg).flatMap setupFrames).isPrefixOf o.frames)]
         else []
       | .setup =>
